@@ -11,8 +11,9 @@ import (
 
 type dtlcpStack struct{}
 
-// short retransmission timer: an honest DTLCP handshake waits for one timer expiry (known defect)
-const rto = 200 * time.Millisecond
+// retransmission timer: nothing is lost on the in-memory transport, so it should never fire;
+// it is kept well above scheduling delays of a loaded machine
+const rto = 2 * time.Second
 
 func dtlcpCert(l *pki.Leaf) *dtlcp.Certificate {
 	return &dtlcp.Certificate{Certificate: [][]byte{l.DER}, PrivateKey: l.Key}
@@ -102,8 +103,8 @@ func (st dtlcpStack) run(cc cliCfg, sc srvCfg, rounds int) []hsResult {
 		ce, se := pair.PacketPipe()
 		c := dtlcp.Client(ce, se.LocalAddr(), cu)
 		s := dtlcp.Server(se, ce.LocalAddr(), su)
-		cerr, serr, timedOut := runBoth(c.Handshake, s.Handshake, func() { ce.Close() }, func() { se.Close() }, 20*time.Second)
-		res := hsResult{timeout: timedOut}
+		cerr, serr, cHung, sHung := runBoth(c.Handshake, s.Handshake, func() { ce.Close() }, func() { se.Close() }, 20*time.Second)
+		res := hsResult{cHung: cHung, sHung: sHung}
 		res.c = dtlcpState(c, cerr, [2]*pki.Leaf{srvSig, srvEnc})
 		res.s = dtlcpState(s, serr, [2]*pki.Leaf{cliSig, cliEnc})
 		if res.c.ok && res.s.ok {
